@@ -392,6 +392,7 @@ def main(modname: str):
     ap.add_argument("--parts", default=None, help="comma separated subset (debugging)")
     ap.add_argument("--scale", type=float, default=float(os.environ.get("VERIF_BUDGET_SCALE", "1")))
     ap.add_argument("--no-evidence", action="store_true")
+    ap.add_argument("--shrink", action="store_true", help="shrink failing cases also in the quick tier")
     args = ap.parse_args()
     t_start = time.time()
     try:
@@ -508,7 +509,7 @@ def _main(mod, prop, args, t_start):
             continue
         part = by_name[ent["part"]]
         case = ent["case"]
-        if tier == "thorough" and part.shrink and part.strategy is not None:
+        if (tier == "thorough" or args.shrink) and part.shrink and part.strategy is not None:
             case = shrink_case(part, bucket, args.seed, case)
         path = write_replay(prop, ent["part"], bucket, ent["message"], case)
         violations.append((bucket, ent, path))
